@@ -536,6 +536,110 @@ def build_omp(b):
     return b.build_engine("omp", ["gen.c", "eng/engutil.c", "eng/omp.c"], vs, "mon", core=("heap.c", "die.c", "fs.c", "sched.c")), vs
 
 
+# ------------------------------------------------------------------ C12 (engine cfg)
+CFG_VARIANTS = {
+    "s_c_q": dict(sse2=1, mmc=1, mzdcache=1, openmp=0), "s_t_q": dict(sse2=1, mmc=0, mzdcache=0, openmp=0),
+    "n_c_q": dict(sse2=0, mmc=1, mzdcache=1, openmp=0), "n_t_q": dict(sse2=0, mmc=0, mzdcache=0, openmp=0),
+    "s_c_o": dict(sse2=1, mmc=1, mzdcache=0, openmp=1), "s_t_o": dict(sse2=1, mmc=0, mzdcache=0, openmp=1),
+    "n_c_o": dict(sse2=0, mmc=1, mzdcache=0, openmp=1), "n_t_o": dict(sse2=0, mmc=0, mzdcache=0, openmp=1),
+}
+
+
+def build_cfg(b, names=None):
+    names = names or sorted(CFG_VARIANTS)
+    vs = [Variant("ref", flavour="plain", knobs=False)] + [Variant(n, flavour="plain", knobs=True, **CFG_VARIANTS[n]) for n in names]
+    b.build_variants(vs)
+    return b.build_engine("cfg", ["gen.c", "eng/engutil.c", "eng/cfg.c"], vs, "plain", core=("heap.c", "die.c", "fs.c", "sched.c")), vs
+
+
+def check_C12(tier, seed, replay=None):
+    t0 = time.time()
+    rep = Report("C12")
+    b = Builder()
+    try:
+        import random
+        if tier == "quick" and not replay:
+            rr = random.Random(seed)
+            names = ["s_c_q"] + rr.sample([n for n in sorted(CFG_VARIANTS) if n != "s_c_q"], 3)
+            if not any(n.endswith("_o") for n in names):
+                names[-1] = rr.choice(["s_c_o", "s_t_o", "n_c_o", "n_t_o"])
+            if not any(n.startswith("n_") for n in names):
+                names[1] = "n_c_q"
+        else:
+            names = sorted(CFG_VARIANTS)
+        exe, vs = build_cfg(b, names)
+        if replay:
+            r = exec_prog(exe, replay)
+            print(r.get("raw"))
+            ok = r.get("cls", "") == "ok"
+            if not ok:
+                print("VIOLATION property=%s replay=%s" % (r.get("prop", "C12"), replay))
+            return 0 if ok else 1
+        total = 12 * (150 if tier == "quick" else 1700)
+        outdir = os.path.join(b.scratch, "out")
+        lines, crashes = fanout(exe, seed, total, tier, outdir, 90 if tier == "quick" else 1300)
+        for cc in crashes:
+            rep.harness("cfg worker %d exited with %d: %s" % (cc["worker"], cc["rc"], cc["tail"][-3:]))
+        hashes, vl, classes, per_scen, T = [], [], {}, {}, {}
+        for w, l in lines:
+            tag, d = kv(l)
+            if tag == "R":
+                hashes.append((int(d["idx"]), d["hash"]))
+                classes[d["class"]] = classes.get(d["class"], 0) + 1
+                per_scen[d["scen"]] = per_scen.get(d["scen"], 0) + 1
+            elif tag == "T":
+                for kk, v in d.items():
+                    T[kk] = T.get(kk, 0) + int(v)
+            elif tag == "V":
+                vl.append(d)
+        if not hashes:
+            rep.harness("no run")
+        probes = {k[2:]: v for k, v in T.items() if k.startswith("p.")}
+        vuse = {k[2:]: v for k, v in T.items() if k.startswith("v.")}
+        stuck = sorted(k for k, v in probes.items() if v == 0)
+        if tier == "thorough" and stuck:
+            rep.harness("reach probes stuck at zero: %s" % stuck)
+
+        def sig(v, s):
+            return "cfg|%s|%s|%s" % (v.get("scen"), v.get("class"), v.get("func", "-"))
+        process_violations(rep, exe, vl, None, outdir, seed, sig,
+                           keep_pred=lambda l: l.startswith("#") or l.startswith("family") or l.startswith("mat") or l.startswith("same"))
+        samples = []
+        per = (total + driver.NWORKERS - 1) // driver.NWORKERS
+        for w in (0, 3, 9):
+            p = os.path.join(outdir, "cur-%d.prog" % (w * per))
+            if os.path.exists(p):
+                samples.append(open(p).read())
+        wall = time.time() - t0
+        mine_viol = [v for v in rep.violations if v[0] == "C12"]
+        cov = dict(
+            evaluations=T.get("configs", 0), distinct_nontrivial=len(set(h for i, h in hashes)),
+            rule="one evaluation = one operation family evaluated under one configuration (build variant, L1/L2/L3 triple, k, cutoff, route, team size for OpenMP variants) and compared with the reference "
+                 "(shipped default configuration, literal cache sizes, k = 0, cutoff = 0); a run = one operand set under 12 (quick) / 24 (thorough) configurations, forked; distinct = distinct event-log hashes of runs",
+            samples=samples, runs=len(hashes), outcome_classes=classes, runs_per_family=per_scen, configurations_per_variant=vuse,
+            fault_kinds_fired={"cache sizes other than the shipped ones": T.get("configs", 0) - len(hashes), "no-SSE2 build": probes.get("no_sse2_variant", 0),
+                               "OpenMP build on the simulated runtime (seeded team size 1..16)": probes.get("openmp_variant_on_simulated_runtime", 0)},
+            reach_probes=probes, probes_stuck_at_zero=stuck,
+            runs_per_hour=int(len(hashes) / max(wall, 1e-3) * 3600), seeds_per_hour=int(len(hashes) / max(wall, 1e-3) * 3600),
+            simulated_time="not applicable: no clock in this property",
+            run_hash_digest=digest(hashes), variants=[v.describe() for v in vs], source_sha256=b.sha,
+            real_components=["every build variant of the library, compiled from /repo's tree with its own generated m4ri_config.h"],
+            simulated_components=["cache sizes as run-time knobs (generated m4ri_config.h)", "OpenMP runtime for the OpenMP variants", "heap front end"])
+        write_evidence("C12", tier, seed, "exploration", cov,
+                       ["purely differential against the shipped default configuration of the same tree: a wrong value computed identically by every configuration is silent",
+                        "cache sizes are run-time variables in the knob builds (the three '#if X == 0' fix-ups in misc.h are skipped, as for any non-zero configured size)",
+                        "quick tier links 4 of the 8 variants (seed-chosen, always with one no-SSE2 and one OpenMP variant); thorough links all 8",
+                        "solutions X of rank-deficient systems are compared through A*X; PLE/PLUQ factors through the product reconstructed with the reference arithmetic"],
+                       wall, len(mine_viol))
+        print("C12 %s: %d runs, %d configurations, variants %s, classes %s, %.1fs" % (tier, len(hashes), T.get("configs", 0), vuse, classes, wall))
+        return rep.exit_code()
+    except BuildError as e:
+        print("HARNESS-ERROR: build failed: %s" % e)
+        return 2
+    finally:
+        b.cleanup()
+
+
 # ------------------------------------------------------------------ C15 (engine thr)
 def build_thr(b):
     vs = [Variant("ts", mmc=0, mzdcache=0, flavour="mon", knobs=True),
@@ -785,4 +889,4 @@ def check_C11(tier, seed, replay=None):
     return check_hist("C11", tier, seed, replay)
 
 
-CHECKS = {"C20": check_C20, "C18": check_C18, "C14": check_C14, "C10": check_C10, "C11": check_C11, "C16": check_C16, "C15": check_C15}
+CHECKS = {"C20": check_C20, "C18": check_C18, "C14": check_C14, "C10": check_C10, "C11": check_C11, "C16": check_C16, "C15": check_C15, "C12": check_C12}
